@@ -19,3 +19,11 @@ func init() {
 	AddControl(Control{ID: "c05-transport-bytes-reader-whole", Prop: "C05", Rule: "C05.transport", File: "pkg/bitio/ioreader.go",
 		Old: "aBits := bBits - bBits%8", New: "aBits := bBits", ExpectKey: "whole:multiple"})
 }
+
+func init() {
+	// the bits_format helper gets its copy of the options before the bases are clamped (the clamps moved below it)
+	AddControl(Control{ID: "c13-inv-copy-before-clamps", Prop: "C13", Rule: "C13.inv", File: "pkg/interp/interp.go",
+		Old: "\topts.Sizebase = mathx.Clamp(2, 36, opts.Sizebase)\n\topts.LineBytes = max(1, opts.LineBytes)\n\topts.DisplayBytes = max(0, opts.DisplayBytes)\n\topts.Decorator = decoratorFromOptions(opts)\n\tif fn, err := bitsFormatFnFromOptions(opts); err != nil {\n\t\treturn nil, err\n\t} else {\n\t\topts.BitsFormatFn = fn\n\t}\n",
+		New: "\tif fn, err := bitsFormatFnFromOptions(opts); err != nil {\n\t\treturn nil, err\n\t} else {\n\t\topts.BitsFormatFn = fn\n\t}\n\topts.Sizebase = mathx.Clamp(2, 36, opts.Sizebase)\n\topts.LineBytes = max(1, opts.LineBytes)\n\topts.DisplayBytes = max(0, opts.DisplayBytes)\n\topts.Decorator = decoratorFromOptions(opts)\n",
+		ExpectKey: "OptionsFromValue:copy:bitsFormatFnFromOptions:Sizebase"})
+}
